@@ -22,8 +22,7 @@ THEOREMS = [
     'AiutiVerif.Bridge.C16_sentinel_always',
     'AiutiVerif.Bridge.C16_no_thread_left',
     'AiutiVerif.Bridge.C16_never_stuck',
-    'AiutiVerif.Bridge.inv_step',
-]
+    'AiutiVerif.Bridge.inv_step', 'AiutiVerif.Bridge.Close.C16_close_prefix', 'AiutiVerif.Bridge.Close.C16_at_most_one_put_after_close', 'AiutiVerif.Bridge.Close.C16_close_never_blocks', 'AiutiVerif.Bridge.Close.C16_helper_never_stuck', 'AiutiVerif.Bridge.Close.C16_helper_progress', 'AiutiVerif.Bridge.Close.inv_step']
 ASSUMPTIONS = [
     'the hand-off channel is FIFO: loop.call_soon_threadsafe callbacks run in order and asyncio.Queue / queue.Queue '
     'preserve order (assumed by the model; the real objects are used in the runs)',
@@ -104,6 +103,11 @@ class CoopExecutor:
 
     def shutdown(self, wait=True):
         E = ENV
+        if getattr(E, 'closing', False):
+            # the consumer is leaving early: no schedule point lies between the library's `stopped = True` and this
+            # call, so this is the instant of the model's `close`
+            E.closing = False
+            E.labels.append('cl')
         if wait and threading.current_thread().name in E.S.threads:
             E.S.point('pool.join', enabled=lambda: all(not E.S.threads[w]['alive'] for w in self.mine))
 
@@ -247,6 +251,7 @@ def run_case(case, seed, pct=0, choices=None):
                 raise boom
             S.point('src.step')
             pause(delays[i])
+            E.labels.append('sy:%d' % (ident(TABLE[e]) if case['kind'] != 'async:range' else e))
             yield TABLE[e] if case['kind'] != 'async:range' else e
         if fail == len(ids):
             E.labels.append('sf')
@@ -296,10 +301,16 @@ def run_case(case, seed, pct=0, choices=None):
                             res['got'].append(x)
                             E.labels.append('g:%d' % ident(x))
                         t0, k0 = S.vt, res['ticks']
+                        E.closing = True
                         await agen.aclose()
                         res['close_took'] = S.vt - t0
                         res['end'] = 'closed-early'
-                        E.labels.append('gd')
+                        # the application goes on for a while (a loop that is closed at once would make the helper
+                        # thread's last hand-offs fail: a different story)
+                        for _ in range(60):
+                            if not any(S.threads[w]['alive'] for w in E.workers):
+                                break
+                            await asyncio.sleep(1)
                         t.cancel()
                         return
                     try:
@@ -374,6 +385,9 @@ def judge(case, r):
             return 'blocked-loop', (f'closing the async iterator after {case["stop_after"]} element(s) blocked the event '
                                     f'loop for {r["close_took"]} virtual seconds while the source was still blocked '
                                     f'in its remaining steps {case["delays"][case["stop_after"]:]}')
+        if r['workers_alive']:
+            return 'thread-left', (f'helper thread(s) {r["workers_alive"]} still running at the end of the run, long after '
+                                   f'the consumer closed the iterator')
         return None, None
     exp = expected(case)
     same = len(r['got']) == len(exp) and all(type(a) is type(b) and a == b for a, b in zip(r['got'], exp))
@@ -404,10 +418,30 @@ def judge(case, r):
     return None, None
 
 
+PRODUCER = ('sy', 'p', 'pd', 'se', 'sf', 'we')
+
+
+def model_labels(case, labels):
+    """The recorded labels as the model's: `sy:x` (the source handed `x` to the helper thread) is folded into the
+    `p:x` that follows it on the producer's side, or becomes `dr:x` when the producer leaves its loop instead."""
+    out = []
+    for i, l in enumerate(labels):
+        if l.startswith('sy:'):
+            nxt = next((m for m in labels[i + 1:] if m.split(':')[0] in PRODUCER), None)
+            if nxt is not None and nxt.startswith('p:'):
+                continue
+            if nxt == 'pd' and case.get('stop_after'):
+                out.append('dr:' + l[3:])
+            continue
+        out.append(l)
+    return out
+
+
 def model_line(case, labels):
     ids = case['ids']
-    return (f"bridge src={','.join(map(str, ids))} fail={'-' if case['fail'] is None else case['fail']} "
-            f"labels={';'.join(labels)}")
+    comp = 'bridgec' if case.get('stop_after') else 'bridge'
+    return (f"{comp} src={','.join(map(str, ids))} fail={'-' if case['fail'] is None else case['fail']} "
+            f"labels={';'.join(model_labels(case, labels))}")
 
 
 def _chunk(payload):
@@ -434,8 +468,8 @@ def _chunk(payload):
         out.count('kind:' + case['kind'])
         out.count('fail:' + ('none' if case['fail'] is None else 'yes'))
         out.count('len:%d' % len(case['ids']))
-        if case['kind'] in ('async:gen', 'sync:agen') and not r['hung'] and not case.get('stop_after'):
-            runs.append((case, r))       # (an early close by the consumer is outside the bridge model: monitor only)
+        if case['kind'] in ('async:gen', 'sync:agen') and not r['hung']:
+            runs.append((case, r))       # (an early close by the consumer: the extended LTS of Bridge/CloseModel.lean)
         if case.get('stop_after'):
             out.count('consumer-closes-early')
         if len(out.samples) < 1 and len(r['labels']) > 8:
@@ -445,8 +479,12 @@ def _chunk(payload):
         out.traces_validated += 1
         if not a.startswith('ok'):
             k = int(a.split()[1]) if a.startswith('reject') and a.split()[1].isdigit() else -1
-            out.diffs.append({'case': case, 'impl': r['labels'], 'model': a,
+            out.diffs.append({'case': case, 'impl': model_labels(case, r['labels']), 'model': a,
                               'where': f'label {k} of the recorded trace is not a step of the bridge model'})
+        elif case.get('stop_after') and ' closed=1 exited=1' not in a:
+            out.diffs.append({'case': case, 'impl': model_labels(case, r['labels']), 'model': a,
+                              'where': 'at the end of the run the model has not seen the consumer close and the helper '
+                                       'thread exit'})
     return out
 
 
